@@ -303,3 +303,31 @@ Section Spec.
       apply existsb_exists in H4 as (d & Hd & Hx). apply andb_true_iff in Hx as [Hcf Hg]. exists d. repeat split; assumption.
   Qed.
 End Spec.
+
+(* the loop adds a candidate at most once, and assigned predictions are pairwise distinct *)
+Section NoDupResult.
+  Variable score : Type.
+  Variable beats : score -> bool.
+  Variable m2o : bool.
+  Notation cand := (cand score).
+
+  Lemma step_NoDup_preds (M : list cand) c : NoDup (map cpred M) -> NoDup (map cpred (step beats m2o M c)).
+  Proof.
+    intros Hnd. unfold step. destruct (existsb (conflictb m2o c) M) eqn:E; [exact Hnd|].
+    destruct (beats (fst c)); [|exact Hnd]. rewrite map_app. cbn [map].
+    assert (Hn : ~ In (cpred c) (map cpred M)).
+    { intros Hin. apply in_map_iff in Hin as (d & Hd & Hin).
+      assert (existsb (conflictb m2o c) M = true); [|congruence]. apply existsb_exists. exists d. split; [exact Hin|].
+      unfold conflictb, same_predb, competingb. rewrite Hd, Z.eqb_refl. destruct m2o; [reflexivity|apply orb_true_r]. }
+    clear E. induction M as [|d M IH]; cbn [map app]; [constructor; [intros []|constructor]|].
+    cbn [map] in Hnd, Hn. inversion Hnd as [|? ? Hd Hnd']; subst. constructor.
+    - intros Hin. apply in_app_or in Hin as [Hin|[Hin|[]]]; [contradiction|]. apply Hn. left. congruence.
+    - apply IH; [exact Hnd'|]. intros Hin. apply Hn. now right.
+  Qed.
+  Lemma greedy_NoDup_preds cs : NoDup (map cpred (greedy beats m2o cs)).
+  Proof.
+    unfold greedy. assert (H : forall M, NoDup (map cpred M) -> NoDup (map cpred (fold_left (step beats m2o) cs M))).
+    { induction cs as [|c cs IH]; intros M HM; cbn [fold_left]; [exact HM|]. apply IH. now apply step_NoDup_preds. }
+    apply H. constructor.
+  Qed.
+End NoDupResult.
